@@ -125,6 +125,7 @@ func TestC16Hierarchy(t *testing.T) {
 	s := kit.Begin(t, "C16", "hierarchy",
 		"assemblies: 1-3 scripted requesters (own clock, 1-16 outstanding, port buffers 1-8) -> 0-3 levels of {ROB, write-around/write-evict/write-through cache, write-back cache} (1-8 sets, 1-4 ways, 16-128 B lines not shrinking downwards, 1-4 MSHRs, 1-2 banks, latencies 0-5, 1-4 req/cycle) -> 1-4 interleaved {ideal controller, simple banked memory} over one global storage; one shared or per-boundary direct connections; workload of up to 60 ops per requester over <=12 lines (full-line, word, arbitrary sub-range, masked writes; with >1 requester bytes are owned per 8-byte chunk so no two in-flight requests touch one byte). Oracle: flat reference memory applied at acknowledgement, exactly one response of the matching kind per request to its sender, nothing unanswered when Run returns. Non-trivial: observed run with an MSHR coalesce, a masked write, requester backpressure and (when a write-back cache is present) an eviction in flight")
 	defer s.End()
+	s.Assume("assemblies are linear chains (requesters -> level 0 -> ... -> bottom); trees with sibling caches sharing a lower level are not generated (DESIGN 11.3, seeded change C17-C)")
 	var c c16Case
 	if ok, err := kit.LoadReplay("C16", "hierarchy", &c); ok {
 		if err != nil {
